@@ -67,32 +67,48 @@ PullStep(aut, it, syms) ==
                 m |-> Mk(aut, op, sym[1])]
           ELSE [it |-> it1, m |-> Mk(aut, op, sym[1])]
 
-RECURSIVE ScanLoop(_, _, _)
-ScanLoop(aut, it, syms) ==
-  IF it.k >= Len(syms) THEN [it |-> it, m |-> <<>>]
-  ELSE LET r == PullStep(aut, it, syms) IN
-       IF r.m # <<>> THEN r ELSE ScanLoop(aut, r.it, syms)
+\* the scan loop: pull symbols until something is emitted or symbol number `hi` has been consumed
+\* (evaluated by divide and conquer: logarithmic recursion depth)
+RECURSIVE ScanTo(_, _, _, _)
+ScanTo(aut, it, syms, hi) ==
+  IF it.k >= hi THEN [it |-> it, m |-> <<>>]
+  ELSE IF hi - it.k = 1 THEN PullStep(aut, it, syms)
+  ELSE LET mid == it.k + (hi - it.k) \div 2
+           a   == ScanTo(aut, it, syms, mid)
+       IN IF a.m # <<>> THEN a ELSE ScanTo(aut, a.it, syms, hi)
+ScanLoop(aut, it, syms) == ScanTo(aut, it, syms, Len(syms))
 
 \* ---- leftmost iterator (slice based) --------------------------------------
 \* var = "B": self.pos = pos + 1 ; var = "C": self.pos += skips; skips = 0
-RECURSIVE LmScan(_, _, _, _, _, _, _, _, _)
+\* one loop iteration on symbol c.j; c = [j, s, last, pos, skips, g, done]
+LmStep(aut, syms, var, c) ==
+  LET sym    == syms[c.j]
+      w      == sym[1] - (IF c.j = 1 THEN 0 ELSE syms[c.j - 1][1])
+      skips1 == c.skips + w
+      r      == NextStateR(aut, c.s, sym[2], TRUE)
+      g1     == [probes |-> c.g.probes + r.probes, hops |-> c.g.hops + r.hops]
+  IN
+  IF r.t = ROOT THEN
+     IF c.last # 0 THEN [c EXCEPT !.done = TRUE, !.g = g1]        \* return the candidate
+     ELSE [c EXCEPT !.j = @ + 1, !.s = r.t, !.skips = skips1, !.g = g1]
+  ELSE IF aut.st[r.t].opos # 0 THEN
+     [c EXCEPT !.j = @ + 1, !.s = r.t, !.last = aut.st[r.t].opos,
+               !.pos = IF var = "B" THEN sym[1] ELSE c.pos + skips1, !.skips = 0, !.g = g1]
+  ELSE [c EXCEPT !.j = @ + 1, !.s = r.t, !.skips = skips1, !.g = g1]
+
+RECURSIVE LmTo(_, _, _, _, _)
+LmTo(aut, syms, var, c, hi) ==
+  IF c.done \/ c.j > hi THEN c
+  ELSE IF c.j = hi THEN LmStep(aut, syms, var, c)
+  ELSE LET mid == (c.j + hi) \div 2
+           a   == LmTo(aut, syms, var, c, mid)
+       IN IF a.done THEN a ELSE LmTo(aut, syms, var, a, hi)
+
 LmScan(aut, syms, var, j, s, last, pos, skips, g) ==
-  IF j > Len(syms) THEN
-     [m |-> IF last = 0 THEN <<>> ELSE Mk(aut, last, pos), pos |-> pos, g |-> g]
-  ELSE
-    LET sym    == syms[j]
-        w      == sym[1] - (IF j = 1 THEN 0 ELSE syms[j - 1][1])
-        skips1 == skips + w
-        r      == NextStateR(aut, s, sym[2], TRUE)
-        g1     == [probes |-> g.probes + r.probes, hops |-> g.hops + r.hops]
-    IN
-    IF r.t = ROOT THEN
-       IF last # 0 THEN [m |-> Mk(aut, last, pos), pos |-> pos, g |-> g1]
-       ELSE LmScan(aut, syms, var, j + 1, r.t, last, pos, skips1, g1)
-    ELSE IF aut.st[r.t].opos # 0 THEN
-       LmScan(aut, syms, var, j + 1, r.t, aut.st[r.t].opos,
-              IF var = "B" THEN sym[1] ELSE pos + skips1, 0, g1)
-    ELSE LmScan(aut, syms, var, j + 1, r.t, last, pos, skips1, g1)
+  LET c == LmTo(aut, syms, var,
+                [j |-> j, s |-> s, last |-> last, pos |-> pos, skips |-> skips, g |-> g, done |-> FALSE],
+                Len(syms))
+  IN [m |-> IF c.last = 0 THEN <<>> ELSE Mk(aut, c.last, c.pos), pos |-> c.pos, g |-> c.g]
 
 LmCall(aut, it, syms, var) ==
   LET j0 == Cardinality({j \in 1..Len(syms) : syms[j][1] <= it.pos}) + 1
@@ -112,11 +128,19 @@ NextCall(aut, it, syms, var) ==
          ELSE ScanLoop(aut, it, syms)
     [] it.m = "lm"    -> LmCall(aut, it, syms, var)
 
-\* all results of an iterator driven to exhaustion; [ms, it]
-RECURSIVE RunFrom(_, _, _, _, _)
-RunFrom(aut, it, syms, var, acc) ==
-  LET r == NextCall(aut, it, syms, var) IN
-  IF r.m = <<>> THEN [ms |-> acc, it |-> r.it]
-  ELSE RunFrom(aut, r.it, syms, var, Append(acc, r.m))
-RunAll(aut, method, syms, var) == RunFrom(aut, NewIter(method), syms, var, <<>>)
+\* all results of an iterator driven to exhaustion; [ms, it].  At most n calls, by divide and conquer.
+RECURSIVE RunN(_, _, _, _, _)
+RunN(aut, it, syms, var, n) ==
+  IF n <= 1 THEN
+     LET r == NextCall(aut, it, syms, var) IN
+     [ms |-> IF r.m = <<>> THEN <<>> ELSE <<r.m>>, it |-> r.it, done |-> r.m = <<>>]
+  ELSE LET h == n \div 2
+           a == RunN(aut, it, syms, var, h) IN
+       IF a.done THEN a
+       ELSE LET b == RunN(aut, a.it, syms, var, n - h) IN
+            [ms |-> a.ms \o b.ms, it |-> b.it, done |-> b.done]
+\* no search returns more matches than (symbols x output records)
+RunAll(aut, method, syms, var) ==
+  LET r == RunN(aut, NewIter(method), syms, var, (Len(syms) + 1) * (Len(aut.outs) + 1) + 1)
+  IN [ms |-> r.ms, it |-> r.it]
 =============================================================================
